@@ -361,7 +361,8 @@ func canon32(a map[string]map[string][]int32) string {
 }
 
 // glue runs one whole rebalance round on the real leader glue (verif_export_c14b.go) and emits what every member
-// RECEIVES: ops grange / grr / grack with the same request format as range / rr / rack.  Repeated to sample the
+// RECEIVES: ops grange / grr / grack with the same request format as range / rr / rack; ops vrange / vrr / vrack emit
+// instead what every member ends up with in Generation.Assignments (after fetchOffsets and makeAssignments).  Repeated to sample the
 // iteration orders of the Go maps involved (GroupMemberAssignments, the per-member topic maps, RackAffinity's maps);
 // every distinct outcome is a case.  members[0] is the leader.
 func glue(op string, ms []member, ps []part, repeat int) {
@@ -386,9 +387,12 @@ func glue(op string, ms []member, ps []part, repeat int) {
 					res = "panic"
 				}
 			}()
-			got, _, err := kafka.VerifC14LeaderRound(protoOf[op], vm, gp)
+			got, final, _, err := kafka.VerifC14Round(protoOf["g"+op[1:]], vm, gp)
 			if err != nil {
 				return "panic"
+			}
+			if op[0] == 'v' { // Generation.Assignments after fetchOffsets / makeAssignments
+				return canon(kafka.GroupMemberAssignments(final))
 			}
 			return canon32(got)
 		}()
@@ -532,7 +536,7 @@ func main() {
 					}
 					run("rack", ms, ps, rackRepeat)
 					if n >= 2 || caseNo%3 == 0 {
-						op := []string{"grange", "grr", "grack"}[caseNo%3]
+						op := []string{"grange", "grr", "grack", "vrange", "vrr", "vrack"}[caseNo%6]
 						glue(op, ms, ps, glueRepeat)
 					}
 				}
@@ -601,6 +605,7 @@ func main() {
 		glue("grange", ms, ps, glueRepeat)
 		glue("grr", ms, ps, glueRepeat)
 		glue("grack", ms, ps, glueRepeat)
+		glue([]string{"vrange", "vrr", "vrack"}[k%3], ms, ps, glueRepeat)
 	}
 
 	// ---- 2b. byte level
